@@ -467,3 +467,394 @@ theorem recvLoop_allocs :
 end
 
 end UvModel.Udp
+
+/-! ## handle invariants -/
+namespace UvModel.Udp
+
+/-- requests still owed a callback, oldest first: completed queue then write queue -/
+def H.owed (s : H) : List Dgram := s.cq.map (·.1) ++ s.wq
+
+structure Inv (s : H) : Prop where
+  count : s.sqCount = s.owed.length
+  size : s.sqSize = ((s.owed.map Dgram.bytes).sum : Nat)
+  reqs : s.activeReqs = s.owed.length
+  part : s.accepted.map (·.seq) = s.cbs.map (·.1) ++ s.owed.map (·.seq)
+  sub : (s.wire ++ s.wq).Sublist s.submitted
+  seqs : s.submitted.map (·.seq) = List.range s.nseq
+  acc : s.accepted.Sublist s.submitted
+
+theorem sendmsgv_nonneg (all : List Dgram) (outs : List SOut) (h : (sendmsgv all outs).ret ≥ 0) :
+    wireOf (sendmsgv all outs).log = all.take (sendmsgv all outs).ret.toNat
+    ∧ (sendmsgv all outs).ret.toNat ≤ all.length := by
+  have hs := sendmsgv_spec all outs
+  by_cases h0 : (sendmsgv all outs).ret > 0
+  · have := hs.1 h0; exact ⟨this.1, by omega⟩
+  · have hz : (sendmsgv all outs).ret = 0 := by omega
+    have := hs.2 (by omega)
+    simp [this, hz]
+
+theorem sendmsgv_neg (all : List Dgram) (outs : List SOut) (h : (sendmsgv all outs).ret < 0) :
+    wireOf (sendmsgv all outs).log = [] := (sendmsgv_spec all outs).2 (by omega)
+
+@[simp] theorem cbs_emit_ret (s : H) (r : Int) : (emit s (.ret r)).cbs = s.cbs := by simp [emit, H.cbs]
+@[simp] theorem cbs_emit_skipped (s : H) : (emit s .skipped).cbs = s.cbs := by simp [emit, H.cbs]
+@[simp] theorem cbs_emit_close (s : H) : (emit s .closeCb).cbs = s.cbs := by simp [emit, H.cbs]
+@[simp] theorem cbs_emit_alloc (s : H) (k l : Nat) : (emit s (.alloc k l)).cbs = s.cbs := by simp [emit, H.cbs]
+@[simp] theorem cbs_emit_recv (s : H) (n : Int) (b : Option BufRef) (p f : Nat) :
+    (emit s (.recvCb n b p f)).cbs = s.cbs := by simp [emit, H.cbs]
+@[simp] theorem cbs_emit_send (s : H) (q : Nat) (st : Int) : (emit s (.sendCb q st)).cbs = s.cbs ++ [(q, st)] := by
+  simp [emit, H.cbs]
+
+/-- Inv only depends on these fields -/
+theorem Inv.of_eq {s t : H} (h : Inv s)
+    (h1 : t.sqCount = s.sqCount) (h2 : t.sqSize = s.sqSize) (h3 : t.activeReqs = s.activeReqs)
+    (h4 : t.accepted = s.accepted) (h5 : t.cbs = s.cbs) (h6 : t.cq = s.cq) (h7 : t.wq = s.wq)
+    (h8 : t.klog = s.klog) (h9 : t.submitted = s.submitted) (h10 : t.nseq = s.nseq) : Inv t := by
+  obtain ⟨a, b, c, d, e, f, g⟩ := h
+  constructor <;> simp only [H.owed, H.wire, h1, h2, h3, h4, h5, h6, h7, h8, h9, h10] at * <;> assumption
+
+theorem inv_emit {s : H} (h : Inv s) (e : Ev) (he : ∀ q st, e ≠ .sendCb q st) : Inv (emit s e) := by
+  apply h.of_eq <;> try rfl
+  cases e <;> simp_all
+
+theorem sendmsgAgain_inv (f : Nat) (s : H) (h : Inv s) : Inv (sendmsgAgain f s) := by
+  induction f generalizing s with
+  | zero => exact h
+  | succ f ih =>
+    simp only [sendmsgAgain]
+    split
+    · rename_i hret
+      have hv := sendmsgv_nonneg (s.wq.take 20) s.souts hret
+      generalize sendmsgv (s.wq.take 20) s.souts = v at hv hret
+      have hn : v.ret.toNat ≤ 20 ∧ v.ret.toNat ≤ s.wq.length := by
+        have := hv.2; simp at this; omega
+      have key : Inv { s with souts := v.outs, klog := s.klog ++ v.log,
+                              cq := s.cq ++ (s.wq.take v.ret.toNat).map (fun d => (d, (d.bytes : Int))),
+                              wq := s.wq.drop v.ret.toNat } := by
+        obtain ⟨a, b, c, d, e, g, i⟩ := h
+        have ho : (s.cq ++ (s.wq.take v.ret.toNat).map (fun d => (d, (d.bytes : Int)))).map (·.1)
+            ++ s.wq.drop v.ret.toNat = s.cq.map (·.1) ++ s.wq := by
+          simp [List.map_append, List.map_map, Function.comp_def, List.append_assoc]
+        constructor <;> simp only [H.owed, H.wire, H.cbs] at * <;> try (rw [ho]; assumption)
+        · rw [wireOf_append, hv.1, List.take_take]
+          have : min v.ret.toNat 20 = v.ret.toNat := by omega
+          rw [this, List.append_assoc, List.take_append_drop]; exact e
+        · exact g
+        · exact i
+      split
+      · exact key.of_eq rfl rfl rfl rfl rfl rfl rfl rfl rfl rfl
+      · exact ih _ key
+    · rename_i hret
+      have hv := sendmsgv_neg (s.wq.take 20) s.souts (by omega)
+      generalize sendmsgv (s.wq.take 20) s.souts = v at hv hret
+      have key : Inv { s with souts := v.outs, klog := s.klog ++ v.log } := by
+        obtain ⟨a, b, c, d, e, g, i⟩ := h
+        constructor <;> simp only [H.owed, H.wire, H.cbs] at * <;> try assumption
+        rw [wireOf_append, hv]; simpa using e
+      split
+      · exact key
+      · split
+        · exact key
+        · rename_i d rest hwq
+          obtain ⟨a, b, c, d', e, g, i⟩ := key
+          have ho : (s.cq ++ [(d, v.ret)]).map (·.1) ++ rest = s.cq.map (·.1) ++ d :: rest := by simp
+          simp only [H.owed, H.wire, H.cbs, hwq] at a b c d' e g i
+          refine ⟨?_, ?_, ?_, ?_, ?_, ?_, ?_⟩ <;> simp only [H.owed, H.wire, H.cbs, feed]
+          · rw [ho]; exact a
+          · rw [ho]; exact b
+          · rw [ho]; exact c
+          · rw [ho]; exact d'
+          · exact (List.Sublist.append_left (List.sublist_cons_self d rest) _).trans e
+          · exact g
+          · exact i
+
+theorem uvSendmsg_inv (s : H) (h : Inv s) : Inv (uvSendmsg s) := by
+  unfold uvSendmsg; split
+  · exact h
+  · exact sendmsgAgain_inv _ _ h
+
+/-- a new datagram enters `submitted` (every send / try_send call) -/
+theorem inv_submit {s : H} (h : Inv s) (ds : List Dgram) (hd : ds.map (·.seq) = (List.range ds.length).map (s.nseq + ·)) :
+    Inv { s with nseq := s.nseq + ds.length, submitted := s.submitted ++ ds } := by
+  obtain ⟨a, b, c, d, e, g, i⟩ := h
+  refine ⟨a, b, c, d, ?_, ?_, ?_⟩
+  · exact e.trans (List.sublist_append_left _ _)
+  · show List.map _ (s.submitted ++ ds) = _
+    rw [List.map_append, g, hd, List.range_add]
+  · exact i.trans (List.sublist_append_left _ _)
+
+theorem mkDgrams_seq (n c : Nat) (b : List Nat) (d : Nat) :
+    (mkDgrams n c b d).map (·.seq) = (List.range (mkDgrams n c b d).length).map (n + ·) := by
+  simp [mkDgrams, List.map_map, Function.comp_def]
+
+theorem owed_nil_of_count {s : H} (h : Inv s) (h0 : s.sqCount = 0) : s.wq = [] ∧ s.cq = [] := by
+  have := h.count; rw [h0] at this
+  have hl : s.owed.length = 0 := by omega
+  have := List.eq_nil_of_length_eq_zero hl
+  simp [H.owed] at this; exact ⟨this.2, this.1⟩
+
+theorem udpSend_inv (s : H) (d : Dgram) (en : Bool) (h : Inv s) (hd : d.seq = s.nseq) :
+    Inv (udpSend { s with nseq := s.nseq + 1, submitted := s.submitted ++ [d] } d en).1 := by
+  have h1 : Inv { s with nseq := s.nseq + 1, submitted := s.submitted ++ [d] } :=
+    inv_submit h [d] (by simp [hd])
+  unfold udpSend
+  simp only
+  split
+  · apply h1.of_eq <;> try rfl
+    show s.activeReqs + 1 - 1 = s.activeReqs; omega
+  · have key : Inv { s with nseq := s.nseq + 1, submitted := s.submitted ++ [d], activeReqs := s.activeReqs + 1,
+                             sqSize := s.sqSize + d.bytes, sqCount := s.sqCount + 1, wq := s.wq ++ [d],
+                             active := true, accepted := s.accepted ++ [d] } := by
+      obtain ⟨a, b, c, d', e, g, i⟩ := h
+      obtain ⟨_, _, _, _, _, g1, _⟩ := h1
+      have ho : s.cq.map (·.1) ++ (s.wq ++ [d]) = (s.cq.map (·.1) ++ s.wq) ++ [d] := by simp
+      simp only [H.owed, H.wire, H.cbs] at a b c d' e g i g1
+      refine ⟨?_, ?_, ?_, ?_, ?_, g1, ?_⟩ <;> simp only [H.owed, H.wire, H.cbs]
+      · rw [ho, List.length_append, a]; simp
+      · rw [ho, List.map_append, List.sum_append, b]; simp
+      · rw [ho, List.length_append, c]; simp
+      · rw [ho, List.map_append, List.map_append, d']; simp
+      · rw [← List.append_assoc]; exact e.append (List.Sublist.refl _)
+      · exact i.append (List.Sublist.refl _)
+    split
+    · have k2 := uvSendmsg_inv _ key
+      split
+      · exact k2.of_eq rfl rfl rfl rfl rfl rfl rfl rfl rfl rfl
+      · exact k2
+    · exact key.of_eq rfl rfl rfl rfl rfl rfl rfl rfl rfl rfl
+
+theorem applyOp_inv (s : H) (op : Op) (h : Inv s) : Inv (applyOp s op) := by
+  unfold applyOp
+  split
+  · exact inv_emit h _ (by intros; simp)
+  · cases op with
+    | send bufs dest en =>
+      simp only
+      have h1 : Inv { s with nseq := s.nseq + 1, submitted := s.submitted ++ [⟨s.nseq, bufs, dest⟩] } :=
+        inv_submit h [⟨s.nseq, bufs, dest⟩] (by simp)
+      split
+      · exact inv_emit h1 _ (by intros; simp)
+      · have := udpSend_inv s ⟨s.nseq, bufs, dest⟩ en h rfl
+        generalize udpSend _ _ _ = r at this
+        exact inv_emit this _ (by intros; simp)
+    | trySend bufs dest =>
+      simp only
+      have h1 : Inv { s with nseq := s.nseq + 1, submitted := s.submitted ++ [⟨s.nseq, bufs, dest⟩] } :=
+        inv_submit h [⟨s.nseq, bufs, dest⟩] (by simp)
+      split
+      · exact inv_emit h1 _ (by intros; simp)
+      · split
+        · exact inv_emit h1 _ (by intros; simp)
+        · split
+          · exact inv_emit h1 _ (by intros; simp)
+          · rename_i hq
+            have hq0 : s.sqCount = 0 := by simpa using hq
+            obtain ⟨hwq, _⟩ := owed_nil_of_count h hq0
+            apply inv_emit _ _ (by intros; simp)
+            obtain ⟨a, b, c, d', e, g, i⟩ := h
+            obtain ⟨_, _, _, _, _, g1, i1⟩ := h1
+            simp only [H.owed, H.wire, H.cbs, hwq, List.append_nil] at a b c d' e g i g1 i1
+            refine ⟨?_, ?_, ?_, ?_, ?_, g1, i1⟩ <;> simp only [H.owed, H.wire, H.cbs, hwq, List.append_nil]
+            · exact a
+            · exact b
+            · exact c
+            · exact d'
+            · rw [wireOf_append]
+              rcases sendmsg1_spec ⟨s.nseq, bufs, dest⟩ s.souts with ⟨_, hw⟩ | ⟨_, hw⟩
+              · rw [hw]; exact e.append (List.Sublist.refl _)
+              · rw [hw, List.append_nil]; exact e.trans (List.sublist_append_left _ _)
+    | trySend2 count bufs dest =>
+      simp only
+      have hlen : (mkDgrams s.nseq count bufs dest).length = count := by simp [mkDgrams]
+      have h1 : Inv { s with nseq := s.nseq + count, submitted := s.submitted ++ mkDgrams s.nseq count bufs dest } := by
+        have := inv_submit h (mkDgrams s.nseq count bufs dest) (mkDgrams_seq _ _ _ _)
+        rw [hlen] at this; exact this
+      split
+      · exact inv_emit h1 _ (by intros; simp)
+      · split
+        · exact inv_emit h1 _ (by intros; simp)
+        · rename_i hq
+          split
+          · exact inv_emit h1 _ (by intros; simp)
+          · have hq0 : s.sqCount = 0 := by
+              have := h.count; simp only [gt_iff_lt, Int.not_lt] at hq; omega
+            obtain ⟨hwq, _⟩ := owed_nil_of_count h hq0
+            apply inv_emit _ _ (by intros; simp)
+            obtain ⟨a, b, c, d', e, g, i⟩ := h
+            obtain ⟨_, _, _, _, _, g1, i1⟩ := h1
+            simp only [H.owed, H.wire, H.cbs, hwq, List.append_nil] at a b c d' e g i g1 i1
+            refine ⟨?_, ?_, ?_, ?_, ?_, g1, i1⟩ <;> simp only [H.owed, H.wire, H.cbs, hwq, List.append_nil]
+            · exact a
+            · exact b
+            · exact c
+            · exact d'
+            · rw [wireOf_append]
+              have hs := sendmsgv_spec (mkDgrams s.nseq count bufs dest) s.souts
+              by_cases hp : (sendmsgv (mkDgrams s.nseq count bufs dest) s.souts).ret > 0
+              · rw [(hs.1 hp).1]; exact e.append (List.take_sublist _ _)
+              · rw [hs.2 (by omega), List.append_nil]; exact e.trans (List.sublist_append_left _ _)
+    | recvStart =>
+      simp only
+      split
+      · exact inv_emit h _ (by intros; simp)
+      · apply inv_emit _ _ (by intros; simp)
+        exact h.of_eq rfl rfl rfl rfl rfl rfl rfl rfl rfl rfl
+    | recvStop =>
+      simp only
+      apply inv_emit _ _ (by intros; simp)
+      exact h.of_eq rfl rfl rfl rfl rfl rfl rfl rfl rfl rfl
+    | close =>
+      simp only
+      exact h.of_eq rfl rfl rfl rfl rfl rfl rfl rfl rfl rfl
+
+theorem applyOps_inv (ops : List Op) (s : H) (h : Inv s) : Inv (applyOps s ops) := by
+  induction ops generalizing s with
+  | nil => exact h
+  | cons op ops ih => exact ih _ (applyOp_inv s op h)
+
+theorem inv_pop {s : H} (h : Inv s) {d : Dgram} {st : Int} {rest : List (Dgram × Int)}
+    (hcq : s.cq = (d, st) :: rest) (st' : Int) :
+    Inv (emit { s with cq := rest, activeReqs := s.activeReqs - 1, sqSize := s.sqSize - d.bytes,
+                       sqCount := s.sqCount - 1, nSendCb := s.nSendCb + 1 } (.sendCb d.seq st')) := by
+  obtain ⟨a, b, c, d', e, g, i⟩ := h
+  simp only [H.owed, H.wire, hcq, List.map_cons, List.cons_append, List.length_cons, List.sum_cons] at a b c d' e g i
+  refine ⟨?_, ?_, ?_, ?_, e, g, i⟩ <;> simp only [H.owed, H.wire, cbs_emit_send] <;> simp only [emit]
+  · rw [a]; simp
+  · rw [b]; simp; omega
+  · rw [c]; simp
+  · rw [d']; simp [H.cbs]
+
+theorem runCompletedLoop_inv (sc : Script) (f : Nat) (s : H) (h : Inv s) : Inv (runCompletedLoop sc f s) := by
+  induction f generalizing s with
+  | zero => exact h
+  | succ f ih =>
+    simp only [runCompletedLoop]
+    split
+    · exact h
+    · rename_i d st rest hcq
+      apply ih
+      apply applyOps_inv
+      exact inv_pop h hcq _
+
+theorem runCompleted_inv (sc : Script) (s : H) (h : Inv s) : Inv (runCompleted sc s) := by
+  unfold runCompleted
+  simp only
+  have h1 : Inv { s with processing := true } := h.of_eq rfl rfl rfl rfl rfl rfl rfl rfl rfl rfl
+  have h2 := runCompletedLoop_inv sc s.cq.length _ h1
+  split <;> exact h2.of_eq rfl rfl rfl rfl rfl rfl rfl rfl rfl rfl
+
+theorem ioOut_inv (sc : Script) (s : H) (h : Inv s) : Inv (ioOut sc s) := by
+  unfold ioOut; split
+  · exact runCompleted_inv _ _ (uvSendmsg_inv _ h)
+  · exact h
+
+theorem finishClose_inv (sc : Script) (s : H) (h : Inv s) : Inv (finishClose sc s) := by
+  unfold finishClose; split
+  · exact h
+  · simp only
+    apply inv_emit _ _ (by intros; simp)
+    refine (runCompleted_inv sc _ ?_).of_eq rfl rfl rfl rfl rfl rfl rfl rfl rfl rfl
+    obtain ⟨a, b, c, d', e, g, i⟩ := h
+    have ho : (s.cq ++ s.wq.map (fun d => (d, UV_ECANCELED))).map (·.1) ++ [] = s.cq.map (·.1) ++ s.wq := by
+      simp [List.map_map, Function.comp_def]
+    simp only [H.owed, H.wire, H.cbs] at a b c d' e g i
+    refine ⟨?_, ?_, ?_, ?_, ?_, g, i⟩ <;> simp only [H.owed, H.wire, H.cbs]
+    · rw [ho]; exact a
+    · rw [ho]; exact b
+    · rw [ho]; exact c
+    · rw [ho]; exact d'
+    · rw [List.append_nil]; exact (List.sublist_append_left _ _).trans e
+
+section
+variable {σ : Type} (u : RecvUser σ) (P : σ → Prop)
+  (hcb : ∀ s a, P s → P (u.cb s a)) (hal : ∀ s, P s → P (u.alloc s).1)
+include hcb hal
+
+theorem chunkLoop_pres (a : Nat) : ∀ (ds : List RDg) (k : Nat) (s : σ) (evs : List REv), P s →
+    P (chunkLoop u a ds k s evs).1 := by
+  intro ds
+  induction ds with
+  | nil => intro _ _ _ h; exact h
+  | cons d ds ih =>
+    intro k s evs h
+    simp only [chunkLoop]; split
+    · exact ih _ _ _ (hcb _ _ h)
+    · exact h
+
+theorem recvmmsg_pres (a len : Nat) (s : σ) (q : List RItem) (h : P s) : P (recvmmsg u a len s q).s := by
+  unfold recvmmsg
+  generalize kRecvmmsg (min (len / DGRAM_MAX) 20) q = kr
+  match kr with
+  | (.err e, q') => exact hcb _ _ h
+  | (.ok [], q') => exact hcb _ _ h
+  | (.ok (d :: ds), q') =>
+    have := chunkLoop_pres u P hcb hal a (d :: ds) 0 s [] h
+    simp only [recvmmsgK]; split
+    · exact hcb _ _ this
+    · exact this
+
+theorem recvLoop_pres : ∀ (f a : Nat) (count : Int) (s : σ) (q : List RItem) (evs : List REv), P s →
+    P (recvLoop u f a count s q evs).s := by
+  intro f
+  induction f with
+  | zero => intro _ _ _ _ _ h; exact h
+  | succ f ih =>
+    intro a count s q evs h
+    have ha := hal s h
+    simp only [recvLoop]
+    split
+    · exact hcb _ _ ha
+    · split
+      · have hm := recvmmsg_pres u P hcb hal a (u.alloc s).2 (u.alloc s).1 q ha
+        split
+        · exact ih _ _ _ _ _ hm
+        · exact hm
+      · have hc := hcb (u.alloc s).1 (plainArgs ⟨a, 0, (u.alloc s).2⟩ (kRecvmsg q).1) ha
+        split
+        · exact hc
+        · split
+          · exact ih _ _ _ _ _ hc
+          · exact hc
+end
+
+theorem ioIn_inv (sc : Script) (s : H) (q : List RItem) (h : Inv s) : Inv (ioIn sc s q).1 := by
+  unfold ioIn; split
+  · apply recvLoop_pres (hUser sc) Inv
+    · intro s a hs
+      apply applyOps_inv
+      apply inv_emit _ _ (by intros; simp)
+      exact hs.of_eq rfl rfl rfl rfl rfl rfl rfl rfl rfl rfl
+    · intro s hs
+      show Inv (emit _ _)
+      apply inv_emit _ _ (by intros; simp)
+      exact hs.of_eq rfl rfl rfl rfl rfl rfl rfl rfl rfl rfl
+    · exact h
+  · exact h
+
+theorem pendingRounds_inv (sc : Script) (n : Nat) (s : H) (h : Inv s) : Inv (pendingRounds sc n s) := by
+  induction n generalizing s with
+  | zero => exact h
+  | succ n ih =>
+    simp only [pendingRounds]; split
+    · exact ih _ (ioOut_inv _ _ (h.of_eq rfl rfl rfl rfl rfl rfl rfl rfl rfl rfl))
+    · exact h
+
+theorem uvRun_inv (sc : Script) (s : H) (q : List RItem) (h : Inv s) : Inv (uvRun sc s q).1 := by
+  unfold uvRun
+  simp only
+  have h1 := pendingRounds_inv sc 1 s h
+  generalize pendingRounds sc 1 s = s1 at h1
+  apply finishClose_inv
+  apply pendingRounds_inv
+  have h2 : Inv (if s1.pollin = true then ioIn sc s1 q else (s1, q, false)).1 := by
+    split
+    · exact ioIn_inv _ _ _ h1
+    · exact h1
+  split
+  · exact ioOut_inv _ _ h2
+  · exact h2
+
+theorem inv_init (c m : Bool) : Inv { connected := c, mmsg := m } := by
+  refine ⟨?_, ?_, ?_, ?_, ?_, ?_, ?_⟩ <;> simp [H.owed, H.wire, H.cbs, wireOf]
+
+end UvModel.Udp
